@@ -202,6 +202,80 @@ def rule_I2(ctx):
             raise AnalysisBroken("%s: nobody stores %s / %s" % (file, pos, cnt))
 
 
+def rule_Q3(ctx):
+    """Keys that are pushed back cannot keep the editor from ever reading real input again: the
+    fill count of the fixed input queue is only raised by functions that do not read the
+    terminal, so at most its size can be pushed between two real reads (a register that
+    executes itself, `x@a` in a, runs out of room and the editor goes on to read the `:q`)."""
+    ctx.begin("Q3", floor=1, what="pushed input is bounded between two reads of the terminal")
+    from ..bounds import path_states
+    prog = ctx.prog
+    for file, (pos, cnt, arr) in sorted(QUEUE_INVS.items()):
+        inv = queue_invariant(prog, file)
+        if inv is None:
+            raise AnalysisBroken("%s: %s / %s / %s not found" % (file, pos, cnt, arr))
+        nw = 0
+        for f in prog.funcs.values():
+            if f.file != file or any(True for _ in f.calls("read")):
+                continue
+            if not any(lv["k"] == "ref" and lv["name"] == cnt for m, lv, op, rhs in stores(f.body)):
+                continue
+            nw += 1
+            try:
+                sts = path_states(f, "exit", init_hyps=list(inv))
+            except OverflowError:
+                ctx.inconclusive(f.name, "fill count only grows", "too many paths")
+                continue
+            bad = False
+            for subst, hyps, items in sts:
+                C = subst.get(cnt, Lin({cnt: 1}))
+                if C is None or prove_le(Lin({cnt: 1}), C, hyps) != PROVEN:
+                    bad = True
+            if bad:
+                ctx.violation(f.name, "fill count only grows",
+                              "a path through %s lowers %s without reading the terminal: the room that bounds "
+                              "pushed-back input is handed out again, so a register that executes itself is queued "
+                              "for ever and the quit command is never read" % (f.name, cnt), f.loc(f.body))
+            else:
+                ctx.ok(f.name, "%s is not lowered on any of %d paths" % (cnt, len(sts)))
+        if nw == 0:
+            raise AnalysisBroken("%s: no function other than the reader stores %s" % (file, cnt))
+
+
+def _b1_path_prove(prog, f, n, arr, N, esz):
+    """index + length <= N over every path to the write, the file's queue invariant assumed at
+    entry (so that stores to the queue indices before the write are followed): PROVEN or None"""
+    from ..bounds import path_states, struct_invariants
+    inv = (queue_invariant(prog, f.file) or []) + struct_invariants(f)
+    try:
+        sts = path_states(f, n["id"], init_hyps=list(inv), max_paths=2000)
+    except OverflowError:
+        return None
+    if not sts:
+        return None
+    for subst, hyps, items in sts:
+        lin_ = subst["__linfn__"]
+        if n["k"] == "call":
+            d = lin_(strip_casts(n["args"][0]))
+            ln = lin_(strip_casts(n["args"][2]))
+            if d is None or ln is None or d.c.get(arr) != 1:
+                return None
+            off = d - Lin({arr: 1})
+            if prove_le(off.scale(esz) + ln, Lin(k=N * esz), hyps) != PROVEN:
+                return None
+        else:
+            lv = n.get("l") if n["k"] == "bin" else None
+            if lv is None or lv["k"] != "sub":
+                return None
+            idx = strip_casts(lv["idx"])
+            if idx["k"] == "un" and idx["op"] in ("post++", "post--", "pre++", "pre--"):
+                return None
+            il = lin_(idx)
+            if il is None or prove_le(il + Lin(k=1), Lin(k=N), hyps) != PROVEN:
+                return None
+    return PROVEN
+
+
 def rule_B1(ctx):
     ctx.begin("B1", floor=8, what="guarded writes into fixed arrays")
     prog = ctx.prog
@@ -215,6 +289,9 @@ def rule_B1(ctx):
             N = arrays[arr][0]
             inst = (f.name, arr)
             v, hyps = prove_index(f, n, idx + ln, Lin(k=N), _queue_hyps_at(prog, f, n))
+            if v != PROVEN and inst in B1_INSTANCES and f.file in QUEUE_INVS and \
+                    _b1_path_prove(prog, f, n, arr, N, arrays[arr][1]) == PROVEN:
+                v = PROVEN
             if inst in B1_INSTANCES:
                 found.add(inst)
                 if v == PROVEN:
@@ -743,46 +820,87 @@ def rule_B5(ctx):
     prog = ctx.prog
     f = prog.func("ex_exec", file="ex.c")
     cfg = f.cfg
+    # the gate: a branch on strlen(<the command>) against a constant; K = the smallest length
+    # that takes the rejecting edge (the condition is evaluated, so its spelling is free)
     gate = None
+    lnp = f.params[0]["name"]
+
+    def cev(e, L):
+        e = strip_casts(e)
+        if is_call(e, "strlen"):
+            return L
+        if cval(e) is not None:
+            return cval(e)
+        if e["k"] == "paren":
+            return cev(e["e"], L)
+        if e["k"] == "un" and e["op"] == "!":
+            v = cev(e["e"], L)
+            return None if v is None else int(not v)
+        if e["k"] == "bin" and e["op"] in ("<", "<=", ">", ">=", "==", "!=", "+", "-"):
+            x, y = cev(e["l"], L), cev(e["r"], L)
+            if x is None or y is None:
+                return None
+            return {"<": int(x < y), "<=": int(x <= y), ">": int(x > y), ">=": int(x >= y), "==": int(x == y),
+                    "!=": int(x != y), "+": x + y, "-": x - y}[e["op"]]
+        return None
     for b in cfg.blocks.values():
         br = cfg.branch(b.id)
         if not br:
             continue
         c = f.nodes.get(br[0])
-        if c is not None and c["k"] == "bin" and c["op"] in (">=", ">") and is_call(strip_casts(c["l"]), "strlen") \
-                and cval(c["r"]) is not None:
-            K = cval(c["r"]) + (1 if c["op"] == ">" else 0)
-            gate = (b, c, K)
+        if c is None:
+            continue
+        sl = [x for x in calls_in(c, "strlen") if key(strip_casts(x["args"][0])) == lnp]
+        if not sl or cev(c, 0) is None or cev(c, 1 << 20) is None or bool(cev(c, 0)) == bool(cev(c, 1 << 20)):
+            continue
+        big = bool(cev(c, 1 << 20))
+        K = next((L for L in range(0, 70000) if bool(cev(c, L)) == big), None)
+        if K is not None:
+            gate = (b, c, K, 0 if big else 1)          # index of the rejecting successor
     if gate is None:
         ctx.violation("ex_exec", "command length gate", "no test strlen(ln) >= K before the parts are split")
         return
-    b, c, K = gate
+    b, c, K, rej = gate
     arrays = fixed_arrays(prog, f)
     copiers = ("ex_loc", "ex_cmd", "ex_arg")
-    for cn in copiers:
-        for call in f.calls(cn):
-            dst = strip_casts(call["args"][1])
-            if dst["k"] != "ref" or dst["name"] not in arrays:
-                ctx.inconclusive("ex_exec", "part buffer", "destination %s" % key(dst), f.loc(call))
-                continue
-            N = arrays[dst["name"]][0]
-            dom = cfg.edge_dominates(b.id, 1, cfg.pos(call)[0])
-            if dom and K <= N:
-                ctx.ok("ex_exec", "%s into %s[%d] behind strlen(ln) < %d" % (cn, dst["name"], N, K), loc=f.loc(call))
-            elif not dom:
-                ctx.violation("ex_exec", "length gate dominates the split",
-                              "%s is reachable without the strlen test" % cn, f.loc(call))
+    # copier calls in ex_exec itself, or in a helper it calls with its own part buffers
+    sites = []
+    for call in f.calls():
+        fn = call.get("fn")
+        if fn in copiers:
+            sites.append((call, fn, strip_casts(call["args"][1])))
+            continue
+        h = prog.resolve(f, fn) if fn else None
+        if h is None or h.file != f.file or h is f:
+            continue
+        hp = [q["name"] for q in h.params]
+        for hc in h.calls(copiers):
+            d_ = strip_casts(hc["args"][1])
+            if d_["k"] == "ref" and d_["name"] in hp and hp.index(d_["name"]) < len(call["args"]):
+                sites.append((call, hc["fn"], strip_casts(call["args"][hp.index(d_["name"])])))
             else:
-                ctx.violation("ex_exec", "length gate fits the part buffers",
-                              "commands of up to %d bytes are admitted but %s has %d" % (K - 1, dst["name"], N),
-                              f.loc(call))
-    # the gate's true edge returns
-    seen = cfg.reachable_blocks(b.succ[0])
-    if any(cfg.pos(cl)[0] in seen for cn in copiers for cl in f.calls(cn)):
+                sites.append((call, hc["fn"], d_))
+    if len(sites) < 3:
+        raise AnalysisBroken("ex_exec: the calls that split the command were not found")
+    for call, cn, dst in sites:
+        if dst["k"] != "ref" or dst["name"] not in arrays:
+            ctx.inconclusive("ex_exec", "part buffer", "destination %s" % key(dst), f.loc(call))
+            continue
+        N = arrays[dst["name"]][0]
+        dom = cfg.edge_dominates(b.id, 1 - rej, cfg.pos(call)[0])
+        if dom and K <= N:
+            ctx.ok("ex_exec", "%s into %s[%d] behind strlen(ln) < %d" % (cn, dst["name"], N, K), loc=f.loc(call))
+        elif not dom:
+            ctx.violation("ex_exec", "length gate dominates the split",
+                          "%s is reachable without the strlen test" % cn, f.loc(call))
+        else:
+            ctx.violation("ex_exec", "length gate fits the part buffers",
+                          "commands of up to %d bytes are admitted but %s has %d" % (K - 1, dst["name"], N),
+                          f.loc(call))
+    # the gate's rejecting edge returns
+    seen = cfg.reachable_blocks(b.succ[rej])
+    if any(cfg.pos(cl)[0] in seen for cl, _cn, _d in sites):
         ctx.violation("ex_exec", "length gate rejects", "the split is reachable after the gate fired", f.loc(c))
-    # the gated string is the one that is split
-    if key(strip_casts(c["l"])["args"][0]) != f.params[0]["name"]:
-        ctx.violation("ex_exec", "length gate on the command", "the gate measures %s" % key(c["l"]), f.loc(c))
     # copiers write one byte per source byte consumed (plus the terminator): at every store
     # through the destination, (destination advances) - (source advances) <= 0 on the
     # longest path, and no loop has a positive net
@@ -941,10 +1059,33 @@ def _deref_uses(prog, f, p, depth):
     return out
 
 
+def _null_flags(f, p):
+    """locals assigned once from a null test of p: name -> the truth value of the flag that
+    means `p is not NULL` (int has = p != NULL;)"""
+    from ..util import nullness
+    cnt, pol = {}, {}
+    for n, lv, op, rhs in stores(f.body):
+        if lv["k"] in ("ref", "var") and lv.get("cat", "local") in ("local", None) or lv["k"] == "var":
+            nm = lv.get("name")
+            cnt[nm] = cnt.get(nm, 0) + 1
+            if rhs is None:
+                continue
+            for tv in (True, False):
+                nn = nullness(strip_casts(rhs), tv)
+                if nn and key(strip_casts(nn[0])) == p and nn[1] is False and strip_casts(rhs)["k"] in ("bin", "un"):
+                    pol[nm] = tv
+    if any(lv["k"] == "ref" and lv["name"] == p for n, lv, op, rhs in stores(f.body)):
+        return {}
+    return {nm: tv for nm, tv in pol.items() if cnt.get(nm) == 1}
+
+
 def _null_guarded(f, use, p):
     # dominating fact `p` true / `!p` false / p != NULL
+    flags = _null_flags(f, p)
     for c, t in _facts(f, use):
         if key(c) == p and t:
+            return True
+        if c["k"] == "ref" and c["name"] in flags and bool(t) == flags[c["name"]]:
             return True
         if c["k"] == "bin" and c["op"] == "=" and key(c["l"]) == p and t:
             return True
@@ -998,6 +1139,74 @@ def _null_guarded(f, use, p):
     return False
 
 
+def _reaches_unguarded(f, c, var, use):
+    """Does the value `var` got from call c reach the dereference `use` on some path without a
+    null test of var on the way (and without var being assigned again)?"""
+    from ..cfg import paths_to
+    from ..util import nullness
+    cfg = f.cfg
+    pc = cfg.pos(c)
+    if pc is None or cfg.pos(use) is None:
+        return True
+    try:
+        paths = paths_to(cfg, pc[0], use["id"], max_paths=3000)
+    except OverflowError:
+        return True
+    sts = {}
+    for n, lv, op, rhs in stores(f.body):
+        if lv["k"] in ("ref", "var") and lv.get("name") == var:
+            sts[n["id"]] = rhs
+    mine = None          # the store that keeps c's result
+    for nid, rhs in sts.items():
+        if rhs is not None and any(x["id"] == c["id"] for x in walk(rhs)):
+            mine = nid
+    for items in paths:
+        started = False
+        alive, guarded = True, False
+        for it in items:
+            if it[0] == "ev" and it[1] == c["id"]:
+                started = True
+                continue
+            if not started:
+                continue
+            if it[0] == "ev" and it[1] in sts and it[1] != mine:
+                alive = False
+                break
+            if it[0] == "ev" and it[1] == mine and guarded:
+                guarded = False
+            if it[0] == "br":
+                cond = f.nodes[it[1]]
+                parts = flatten_and(cond) if it[2] else flatten_or(cond)
+                for part in parts:
+                    nn = nullness(part, it[2])
+                    if nn and key(strip_casts(nn[0])) == var and nn[1] is False:
+                        guarded = True
+        if started and alive and not guarded:
+            return True
+    return False
+
+
+def _same_call_tested(f, c):
+    """c repeats a call whose earlier, identical result was kept in a variable that is known to
+    be non-NULL here (`v = get(x); if (v != NULL) v = get(x);`)"""
+    from ..util import nullness
+    k_ = key(c)
+    for cond, t in _facts(f, c):
+        for part in (flatten_and(cond) if t else flatten_or(cond)):
+            nn = nullness(part, t)
+            if not nn or nn[1] is not False:
+                continue
+            v = strip_casts(nn[0])
+            if v["k"] != "ref":
+                continue
+            defs = [rhs for n, lv, op, rhs in stores(f.body)
+                    if lv["k"] in ("ref", "var") and lv.get("name") == v["name"] and rhs is not None and
+                    f.cfg.dominates(n, cond) and not any(x["id"] == c["id"] for x in walk(rhs))]
+            if defs and all(key(strip_casts(d)) == k_ for d in defs):
+                return True
+    return False
+
+
 def _nullable_sites(prog, producer, rule_ctx, what, named_exceptions=(), in_range=None):
     """Check every use of the result of `producer` (which may return NULL)."""
     n_sites = 0
@@ -1036,7 +1245,8 @@ def _nullable_sites(prog, producer, rule_ctx, what, named_exceptions=(), in_rang
                     # only uses after this assignment
                     if not f.cfg.dominates(c, use) and f.cfg.search(f.cfg.pos(c), lambda e: e == use["id"]) is None:
                         continue
-                    if not _null_guarded(f, use, var):
+                    if not _null_guarded(f, use, var) and _reaches_unguarded(f, c, var, use) and \
+                            not _same_call_tested(f, c):
                         bad = use
                         break
                 if bad is None:
@@ -1105,7 +1315,8 @@ def _index_in_buffer(prog, f, call, idx_expr):
         return False
     lb = key(strip_casts(call["args"][0]))
     L = Lin({"lbuf_len(%s)" % lb: 1})
-    extra = region_hyps(f, call) + loop_lower_hyps(f, call)
+    from ..bounds import caller_region_hyps
+    extra = region_hyps(f, call) + loop_lower_hyps(f, call) + caller_region_hyps(prog, f)
     from ..bounds import nonneg_var
     for a in il.c:
         if a.isidentifier() and nonneg_var(f, a, lambda ff, nn: region_hyps(ff, nn)):
@@ -1212,9 +1423,9 @@ def rule_I1(ctx):
                 out_ |= stored_fields(h_, seen)
         return out_
 
-    def kw_for(f):
-        if f.qname in _kw:
-            return _kw[f.qname]
+    def kw_for(f, nc=frozenset()):
+        if (f.qname, nc) in _kw:
+            return _kw[(f.qname, nc)]
         p = writers[f.qname][1]
         header_hyps = hh_for(p)
 
@@ -1222,7 +1433,7 @@ def rule_I1(ctx):
             g = prog.resolve(f, call["fn"]) if call.get("fn") else None
             if g is None or g.qname not in writers or g is f:
                 return None
-            return (g, kw_for(g))
+            return (g, kw_for(g, nc))
 
         def call_writes(call, f=f, p=p):
             fn = call.get("fn")
@@ -1233,14 +1444,21 @@ def rule_I1(ctx):
                 return []
             return sorted("%s->%s" % (p, fl) for fl in stored_fields(g))
 
-        def after_call(call, subst, header_hyps=header_hyps):
-            # every writer re-establishes the invariant (its own obligation here)
+        def after_call(call, subst, header_hyps=header_hyps, f=f):
+            # every writer re-establishes the invariant (its own obligation here) -- except a
+            # private helper that is judged only inside its callers
+            g = prog.resolve(f, call["fn"]) if call.get("fn") else None
+            if g is not None and g.qname in nc:
+                subst["__havoc__"] = Lin(k=1)
+                return []
             return header_hyps(subst)
-        _kw[f.qname] = dict(init_hyps=init_for(f, p), header_hyps=header_hyps, assume_fields=FIELDS,
+        _kw[(f.qname, nc)] = dict(init_hyps=init_for(f, p), header_hyps=header_hyps, assume_fields=FIELDS,
                             call_writes=call_writes, inline=inline, after_call=after_call)
-        return _kw[f.qname]
+        return _kw[(f.qname, nc)]
 
-    for qn in sorted(writers):
+    def verify(qn, nc=frozenset()):
+        """[(status, where, text, node)] for one writer"""
+        res = []
         f, p, writes = writers[qn]
         fname = f.name
         cfg = f.cfg
@@ -1285,13 +1503,12 @@ def rule_I1(ctx):
                 if any(key(strip_casts(a_)) == p for a_ in c_["args"]):
                     targets.append((c_, "call of %s" % g_.name))
 
-        kw = kw_for(f)
+        kw = kw_for(f, nc)
         for tgt, where in targets:
             try:
                 sts = path_states(f, tgt["id"], base_case=(where == "loop entry"), **kw)
             except OverflowError:
-                ctx.inconclusive(fname, "history/line-table invariant at the %s" % where,
-                                 "too many paths", f.loc(tgt))
+                res.append(("inconclusive", where, "too many paths", tgt))
                 continue
             bad = None
             undecided = None
@@ -1321,18 +1538,76 @@ def rule_I1(ctx):
                 if bad:
                     break
             if undecided and not bad:
-                ctx.inconclusive(fname, "history/line-table invariant at the %s" % where,
-                                 "%s depends on what a helper called on the way does to the fields "
-                                 "(no summary of it): not decided" % undecided[0], f.loc(tgt))
+                res.append(("inconclusive", where, "%s depends on what a helper called on the way does to the fields "
+                            "(no summary of it): not decided" % undecided[0], tgt))
                 continue
             if bad:
                 desc = ", ".join("%s=%s" % (key(f.nodes[x[1]])[:28], x[2]) for x in bad[2] if x[0] == "br")
-                ctx.violation(fname, "history/line-table invariant at the %s" % where,
-                              "%s is not re-established (%s) on the path: %s" % (bad[0], bad[1], desc),
-                              f.loc(tgt))
+                res.append(("violation", where, "%s is not re-established (%s) on the path: %s" % (bad[0], bad[1], desc), tgt))
             elif sts:
-                ctx.ok(fname, "0 <= ln_n <= ln_sz and 0 <= hist_u <= hist_n <= hist_sz at the %s "
-                       "(%d paths, loop heads havoced)" % (where, len(sts)), loc=f.loc(tgt))
+                res.append(("ok", where, "0 <= ln_n <= ln_sz and 0 <= hist_u <= hist_n <= hist_sz at the %s "
+                            "(%d paths, loop heads havoced)" % (where, len(sts)), tgt))
+        return res
+
+    def emit(qn, res, note=""):
+        f = writers[qn][0]
+        for st, where, text, tgt in res:
+            text = text + note if st != "ok" else text
+            if st == "ok":
+                ctx.ok(f.name, text, loc=f.loc(tgt))
+            elif st == "violation":
+                ctx.violation(f.name, "history/line-table invariant at the %s" % where, text, f.loc(tgt))
+            else:
+                ctx.inconclusive(f.name, "history/line-table invariant at the %s" % where, text, f.loc(tgt))
+
+    first = {qn: verify(qn) for qn in sorted(writers)}
+    # a private helper (static, called only by other writers of the file) that does not keep the
+    # invariant on its own -- it takes a position as a parameter, or leaves a field for its
+    # caller to set -- is no contract boundary: its callers are verified again with its effect
+    # substituted and nothing assumed after it
+    def callers_of(g):
+        return [h for h in prog.funcs.values() if h is not g and any(
+            prog.resolve(h, c_["fn"]) is g for c_ in h.calls() if c_.get("fn"))]
+    helpers = set()
+    for qn, res in first.items():
+        g = writers[qn][0]
+        if not any(r[0] == "violation" for r in res) or not g.static:
+            continue
+        cs = callers_of(g)
+        if not cs or not all(h.file == g.file for h in cs):
+            continue
+        # a caller that stores no field itself becomes a writer through the helper
+        okc = True
+        for h in cs:
+            if h.qname in writers:
+                continue
+            pn_ = [q["name"] for q in h.params]
+            via = {key(strip_casts(c_["args"][0])) for c_ in h.calls(g.name) if c_["args"]}
+            if len(via) == 1 and list(via)[0] in pn_:
+                writers[h.qname] = (h, list(via)[0], [])
+            else:
+                okc = False
+        if okc:
+            helpers.add(qn)
+    nc = frozenset(helpers)
+    for qn in sorted(writers):
+        if qn not in first:
+            first[qn] = None
+    for qn in sorted(writers):
+        if qn in helpers:
+            continue
+        g = writers[qn][0]
+        calls_helper = any(prog.resolve(g, c_["fn"]) is not None and prog.resolve(g, c_["fn"]).qname in helpers
+                           for c_ in g.calls() if c_.get("fn"))
+        hn = sorted(prog.resolve(g, c_["fn"]).name for c_ in g.calls() if c_.get("fn") and
+                    prog.resolve(g, c_["fn"]) is not None and prog.resolve(g, c_["fn"]).qname in helpers)
+        emit(qn, verify(qn, nc) if (calls_helper or first[qn] is None) else first[qn],
+             " (with the effect of its private helper %s substituted)" % ", ".join(sorted(set(hn))) if hn else "")
+    for qn in sorted(helpers):
+        g = writers[qn][0]
+        ctx.ok(g.name, "private helper without a contract of its own (%s): judged inside %s" % (
+            "; ".join(sorted({r[2].split(" is not")[0] for r in first[qn] if r[0] == "violation"})),
+            ", ".join(sorted(h.name for h in callers_of(g)))))
     # lbuf_edit establishes the upper half of the contract by its clamps
     ed = prog.func("lbuf_edit", file="lbuf.c")
     pe = ed.params[0]["name"]
@@ -1989,4 +2264,4 @@ def rule_B3(ctx):
         ctx.broken("only %d allocation writes proven" % n_ok)
 
 
-RULES = {"I1": rule_I1, "I2": rule_I2, "B9": rule_B9, "B11": rule_B11, "B1": rule_B1, "B2": rule_B2, "B3": rule_B3, "B4": rule_B4, "B5": rule_B5, "B6": rule_B6, "B10": rule_B10, "P1": rule_P1, "B14": rule_B14}
+RULES = {"I1": rule_I1, "I2": rule_I2, "Q3": rule_Q3, "B9": rule_B9, "B11": rule_B11, "B1": rule_B1, "B2": rule_B2, "B3": rule_B3, "B4": rule_B4, "B5": rule_B5, "B6": rule_B6, "B10": rule_B10, "P1": rule_P1, "B14": rule_B14}
